@@ -286,12 +286,43 @@ func trimPath(r *rand.Rand) Path {
 	return p
 }
 
+// antennaPath: a rectangle with a zero-width antenna of k bent segments that is retraced exactly,
+// attached inside a straight edge; optionally rotated so that the antenna spans the start index
+func antennaPath(r *rand.Rand) Path {
+	s := int64(10 * (1 + r.Intn(3)))
+	p := Path{{0, 0}, {10 * s, 0}, {10 * s, 5 * s}}
+	k := 1 + r.Intn(3)
+	cur := Pt{10 * s, 5 * s}
+	var out Path
+	for i := 0; i < k; i++ {
+		if i%2 == 0 {
+			cur = Pt{cur[0] + int64(1+r.Intn(4))*s, cur[1]}
+		} else {
+			cur = Pt{cur[0], cur[1] + int64(1+r.Intn(3))*s}
+		}
+		out = append(out, cur)
+	}
+	p = append(p, out...)
+	for i := len(out) - 2; i >= 0; i-- {
+		p = append(p, out[i])
+	}
+	p = append(p, Pt{10 * s, 5 * s}, Pt{10 * s, 10 * s}, Pt{0, 10 * s})
+	if r.Intn(2) == 0 {
+		j := r.Intn(len(p))
+		p = append(append(Path{}, p[j:]...), p[:j]...)
+	}
+	return p
+}
+
 func driveTrim(r *rand.Rand, w *writer, n int) {
 	for i := 0; i < n; i++ {
 		var p Path
-		if r.Intn(3) == 0 {
+		switch r.Intn(6) {
+		case 0, 1:
 			p = latticePath(r, 3, 1, 0, 0, r.Intn(7))
-		} else {
+		case 2:
+			p = antennaPath(r)
+		default:
 			p = trimPath(r)
 		}
 		e := &TrimEv{Ev: "Trim", Chk: chkFor("C15"), Path: p, IsOpen: r.Intn(3) == 0}
@@ -383,15 +414,20 @@ func execSimplify(r *rand.Rand, e *SimplifyEv) {
 	b, ok := boundsOf(Paths{e.Path})
 	if ok && e.Out == "ok" {
 		ext := max64(max64(abs64(b.x0), abs64(b.x1)), max64(abs64(b.y0), abs64(b.y1))) + 1
+		if ext >= 1<<29 {
+			ext = 1<<29 - 1
+		}
 		for t := 0; t < 3; t++ {
 			v := SimpVar{K: 1}
 			lim := int64(1 << 29)
 			if t < len(recorded) {
 				v.Dx, v.Dy, v.K = recorded[t].Dx, recorded[t].Dy, recorded[t].K
 			} else if t == 0 {
-				v.Dx, v.Dy = r.Int63n(2*(lim-ext))-(lim-ext), r.Int63n(2*(lim-ext))-(lim-ext)
+				// translations that keep every coordinate inside [-2^29, 2^29]
+				v.Dx = -(lim + b.x0) + r.Int63n(2*lim-(b.x1-b.x0)+1)
+				v.Dy = -(lim + b.y0) + r.Int63n(2*lim-(b.y1-b.y0)+1)
 			} else if t == 1 {
-				v.Dx, v.Dy = lim-ext, -(lim - ext)
+				v.Dx, v.Dy = lim-b.x1, -lim-b.y0
 			} else {
 				for v.K*2*ext <= lim && v.K < 1<<20 && r.Intn(6) != 0 {
 					v.K *= 2
@@ -412,7 +448,37 @@ func execSimplify(r *rand.Rand, e *SimplifyEv) {
 	e.Nontriv = len(e.Removed) > 0 && len(e.Res) > 2
 }
 
+// bigCollinearPath: a closed path around 2^28 with long edges (3e7..6e7) carrying exactly collinear
+// midpoints and vertices one unit off a line: the regime where float64 products of coordinates lose bits
+func bigCollinearPath(r *rand.Rand) Path {
+	ox, oy := int64(1<<28)-int64(r.Intn(1<<20)), int64(1<<27)+int64(r.Intn(1<<20))
+	if r.Intn(2) == 0 {
+		ox = -ox
+	}
+	l := int64(30000000 + r.Intn(30000000))
+	h := int64(20000000 + r.Intn(20000000))
+	dx, dy := int64(3+r.Intn(5)), int64(1+r.Intn(4))
+	a := Pt{ox, oy}
+	b := Pt{ox + 2*(l/dx/2)*dx, oy + 2*(l/dx/2)*dy} // (b - a) is an even multiple of (dx, dy): exact midpoint
+	m := Pt{(a[0] + b[0]) / 2, (a[1] + b[1]) / 2}
+	c := Pt{b[0] - h/3, b[1] + h}
+	d := Pt{a[0] + h/5, a[1] + h}
+	p := Path{a, m, b, c}
+	if r.Intn(2) == 0 { // one unit off the line c-d
+		p = append(p, Pt{(c[0] + d[0]) / 2, (c[1]+d[1])/2 + 1})
+	}
+	p = append(p, d)
+	if r.Intn(2) == 0 {
+		j := r.Intn(len(p))
+		p = append(append(Path{}, p[j:]...), p[:j]...)
+	}
+	return p
+}
+
 func simplifyPathGen(r *rand.Rand) Path {
+	if r.Intn(4) == 0 {
+		return bigCollinearPath(r)
+	}
 	n := r.Intn(10)
 	if r.Intn(8) == 0 {
 		n = r.Intn(4)
@@ -442,6 +508,9 @@ func driveSimplify(r *rand.Rand, w *writer, n int) {
 		ep := epsList[r.Intn(len(epsList))]
 		e := &SimplifyEv{Ev: "Simplify", Chk: chkFor("C16"), Api: simplifyApis[r.Intn(4)],
 			Path: simplifyPathGen(r), EpsN: ep[0], EpsD: ep[1], Closed: r.Intn(2) == 0}
+		if len(e.Path) > 0 && abs64(e.Path[0][0]) > 1<<27 && r.Intn(2) == 0 {
+			e.EpsN, e.EpsD = 0, 1 // exact collinearity decisions at large magnitude
+		}
 		execSimplify(r, e)
 		w.emit(e)
 	}
